@@ -535,6 +535,8 @@ def run(pm, ctx):
                          'tests; re-spelled tests are not claimed)', 'reported',
                          raisers=('raise_mismatch_error',))
 
+    ctx.import_rules(pm, 'C11', {'C11-R7'}, 'C01-R11',
+                     'examples of every namespace are registered before any is computed: a legal reference to an example of an imported type is not refused for some file orders (shared with C11-R7)')
     from ..effects import run_decisions
     from ..ownership import OWN
     run_decisions(pm, ctx, 'C01-RD', OWN['C01'])
